@@ -1,4 +1,5 @@
 import TwistedModel.Telnet.Data
+import TwistedProps.C38.Gen
 /-!
 C38 — telnet carries application bytes transparently.
 
@@ -19,7 +20,10 @@ Theorems (all unbounded: every history of calls, every byte string, every segmen
                              calls changes neither the calls made nor the final state;
 * `segmentation_independent` — corollary for written streams;
 * `writeSequenceRaw_counterexample` — the pre-repair `writeSequence` falsifies the property;
-* `cr_is_not_transparent`  — why the CR precondition is there.
+* `cr_is_not_transparent`  — why the CR precondition is there;
+* `gen_*`                  — `TelnetTransport.write` (the chained `bytes.replace`) is regenerated from telnet.py on
+                             every run (`Generated.Telnet`, harness/py2lean.py) and proved equal to the model's
+                             `write` (`TwistedProps/C38/Gen.lean`).
 
 Proof shape: a byte-level trace semantics `trace` (no buffer) is shown equal to the code's
 chunk loop with its local `appDataBuffer` (`loop_trace`), and compositional over
@@ -384,6 +388,17 @@ theorem cr_is_not_transparent :
     appBytes (feedAll init [write [CR, LF]]).evs ≠ [CR, LF] ∧
     appBytes (feedAll init [write [CR, NUL]]).evs ≠ [CR, NUL] := by
   decide
+
+/-! ### the translator-regenerated `TelnetTransport.write` (see `TwistedProps/C38/Gen.lean`) -/
+
+/-- `TelnetTransport.write` as regenerated from telnet.py (IAC doubled, then LF → CR LF) = the model's `write` -/
+theorem gen_write (d : Bytes) : Generated.Telnet.write d = write d := gen_write_eq d
+
+/-- the wire image of a call history, with every `write` computed by the regenerated definition -/
+theorem gen_wire (ops : List Op) : wire ops = Generated.Telnet.write (payload ops) := by
+  rw [gen_write]; exact wire_eq ops
+
+example : Generated.Telnet.write [97, 255, 10, 98] = [97, 255, 255, 13, 10, 98] := by decide
 
 /-! ### Non-vacuity -/
 
